@@ -31,10 +31,13 @@ pub struct PatGen<'a> {
     pub vmode: bool,
 }
 
-const LITS: &[&str] = &["a", "b", "c", "a", "b", "é", "K", "s", "\u{17F}", "\u{212A}", "ß", "\u{1F600}", "\\n", "x", "_", "1", "-", " ", "\\ud800", "\\udc00", "\\ud83d\\ude00", "\\u{1F600}", "\\xe9", "\\0"];
+const LITS: &[&str] = &["a", "b", "c", "a", "b", "é", "K", "s", "\u{17F}", "\u{212A}", "ß", "\u{1F600}", "\\n", "x", "_", "1", "-", " ", "\\ud800", "\\udc00", "\\ud83d\\ude00", "\\u{1F600}", "\\xe9", "\\0",
+    // boundaries of the UTF-8 / UTF-16 encodings
+    "\x7f", "\u{80}", "\u{7FF}", "\u{800}", "\u{FFFF}", "\u{10000}", "\u{FF01}", "\u{10FFFF}"];
 const CLASSES: &[&str] = &[
     "[ab]", "[^a]", "\\w", "\\d", "[a-c]", "\\W", "\\s", "\\S", "\\D", "[^\\w]", "[a-zé]", "[\\d_]", "[^]", "[]", "[b-]",
     "[\\u{1F600}a]", "[k\\u017F]", "[^\\n]", "[A-Z]", "[é-ü]",
+    "[\\x80a]", "[\\x7f\\x80]", "[\\u07ff\\u0800]", "[\\uffff\\x7f]", "[^\\x80]", "[\\x7f-\\x80]",
 ];
 const UCLASSES: &[&str] = &["\\p{Lu}", "\\p{L}", "\\P{Ll}", "\\p{Script=Greek}", "\\p{ASCII}", "[\\p{Lu}a]", "[^\\p{L}]", "\\p{Nd}"];
 const VCLASSES: &[&str] = &[
@@ -199,7 +202,8 @@ pub const FIXED_HAYS: &[&str] = &[
     "", "a", "b", "ab", "aa", "aab", "aba", "abc", "aaa", "abab", "a\nb", "éa", "aé", "ééa", "abca", "ba", "ca", "aaaa", "bab", "K", "k",
     "\u{212A}", "s\u{17F}S", "ß", "a\u{1F600}b", "x1_ -", "AbC", "\r\n", "aaab", "xaaac",
 ];
-const HAY_ALPHA: &[&str] = &["a", "b", "c", "a", "b", "é", "K", "k", "s", "S", "\u{17F}", "\u{212A}", "ß", "\u{1F600}", "\n", "x", "_", "1", "-", " ", "A", "B", "\u{2028}", "ü"];
+const HAY_ALPHA: &[&str] = &["a", "b", "c", "a", "b", "é", "K", "k", "s", "S", "\u{17F}", "\u{212A}", "ß", "\u{1F600}", "\n", "x", "_", "1", "-", " ", "A", "B", "\u{2028}", "ü",
+    "\x7f", "\u{80}", "\u{7FF}", "\u{800}", "\u{FFFF}", "\u{10000}", "\u{FF01}", "\u{10FFFF}"];
 const ASCII_ALPHA: &[&str] = &["a", "b", "c", "a", "b", "K", "k", "s", "S", "\n", "x", "_", "1", "-", " ", "A", "B", "\r", "\x7f", "\0", "@", "`", "[", "{", "^", "~", "]", "}", "Z", "z"];
 
 pub fn gen_hay(r: &mut Rng, ascii: bool) -> String {
